@@ -42,7 +42,11 @@ def shapes():
         # failed launch left behind must not change what an interrupt does afterwards
         ("launch-failure-then-two", g(4, [[], [], [], [1, 2, 3]], ["exp", "exp", "cmd", "group"], [True, True, False, False]), 2,
          {}, ["//:t1"]),
+        # a git-managed project whose first experiment has versions recorded at older commits: planning talks to git (one
+        # subprocess per candidate version) - the interrupt may arrive there too; every line of the planning code is a point
+        ("git-planning", g(3, [[], [1], [2]], ["exp", "exp", "group"], [False, False, False]), 1, {}, [], "git"),
     ]
+PLAN_FILES = {"run.py", "git.py", "planner.py", "base.py", "version_index.py"}
 
 
 def make(shape, seed, abort_at=None, after_fork=None, sig="SIGINT", log=False):
@@ -52,6 +56,14 @@ def make(shape, seed, abort_at=None, after_fork=None, sig="SIGINT", log=False):
     scn = RC.scenario_from_graph(g, placement=0, jobs=jobs,
                                  sched={"seed": seed, "p_exit": 0.08 if not codes else 0.3, "p_deliver": 0.5 if not codes else 0.25,
                                         "allow_steal": False, "codes": codes, "fail_launch": fail_launch})
+    if len(shape) > 5 and shape[5] == "git" and RC._GIT_TPL:
+        commits = RC._GIT_TPL["commits"]
+        scn["git"] = True
+        scn["project"]["config"] = ""
+        scn["project"]["index"] = [{"task": "//:t1", "ts": 5, "commit": commits[0], "dirty": False},
+                                   {"task": "//:t1", "ts": 7, "commit": commits[1], "dirty": False}]
+        scn["project"]["dirs"] = [{"task": "//:t1", "ts": 5, "files": {"r": "old"}}, {"task": "//:t1", "ts": 7, "files": {"r": "old"}}]
+        scn["reusable_override"] = {"//:t1": True, "//:t2": False}
     scn["abort_at"] = abort_at
     scn["abort_after_fork"] = after_fork
     scn["abort_sig"] = sig
@@ -76,6 +88,10 @@ def main(tier):
     if mc.violated or mc.deadlock:
         rep.drift.append("Executor.tla with Abort violates %s" % (mc.violated or "deadlock freedom"))
     rep.cov.update({"states": mc.distinct, "transitions": mc.generated, "model_invariants_violated": sorted(set(mc.violated))})
+    gitdir = os.path.join(C.scratch_root(), "c16git_%d" % os.getpid())
+    import shutil as _sh
+    _sh.rmtree(gitdir, ignore_errors=True)
+    RC.set_git_template(RC.make_git_template(gitdir))
     sh = shapes()
     seeds = [3] if tier == "quick" else [3, 11, 29, 41, 57]
     refs = []
@@ -96,6 +112,8 @@ def main(tier):
             picks = set(exec_lines[::4]) | set(range(1, L + 1, 131)) | {L, L - 1}
             picks |= {i + 1 for i, (f, ln, fn) in enumerate(log) if fn in ("start_execution", "_launch_ops_if_able", "run_plan",
                                                                           "add_op", "wait_for_next_op") and (i % 2 == 0)}
+            if len(s) > 5 and s[5] == "git":
+                picks |= {i + 1 for i, (f, ln, fn) in enumerate(log) if f in PLAN_FILES}
         else:
             picks = set(range(1, L + 1))
         for k in sorted(picks):
@@ -143,6 +161,7 @@ def main(tier):
                               a["file"], a["line"], a["func"], " inside a finalizer" if a.get("in_del") else "", live, bad,
                               results[i]["status"], (exc or stderr[-160:]).replace("\n", " | ")),
                           extra={"trace": t})
+    _sh.rmtree(gitdir, ignore_errors=True)
     rep.cov.update({
         "evaluations": len(scns), "distinct_nontrivial": len(nontriv), "aborts_injected": injected,
         "traces_validated_against_impl": len(verdicts),
